@@ -746,13 +746,13 @@ theorem deposit_pres {cfg : Cfg} {s s' : State} {u k d : Nat} {amt r : Int} (h :
   · exact core_lendDelta c (getLend_id (by assumption)) (by rfl) amt
   · exact tl_lendDelta c t (getLend_id (by assumption)) (by rfl) (by rfl) (by rfl) amt (by rfl)
 
-theorem lendNew_pres {cfg : Cfg} {s s' : State} {u a : Nat} {amt : Int} {pool : PoolCfg} (h : lendNew cfg s u a amt pool = .ok s') :
+theorem lendNew_pres {cfg : Cfg} {s s' : State} {u a : Nat} {amt : Int} {pool : PoolCfg} {app : Nat} (h : lendNew cfg s u a amt pool app = .ok s') :
     Pres cfg s s' := by
   unfold lendNew at h
   invert h
   refine ⟨fun c => ?_, fun c t => ?_⟩
-  · exact core_lendNew c { id := s.lendCtr + 1, owner := u, pool := pool.id, asset := a, amountIn := amt, avail := amt } rfl amt
-  · exact tl_lendNew c t { id := s.lendCtr + 1, owner := u, pool := pool.id, asset := a, amountIn := amt, avail := amt } rfl
+  · exact core_lendNew c { id := s.lendCtr + 1, owner := u, pool := pool.id, asset := a, amountIn := amt, avail := amt, app := app } rfl amt
+  · exact tl_lendNew c t { id := s.lendCtr + 1, owner := u, pool := pool.id, asset := a, amountIn := amt, avail := amt, app := app } rfl
 
 theorem lend_pres {cfg : Cfg} {s s' : State} {u a d : Nat} {amt : Int} {p app : Nat} {r : Int} (h : lend cfg s u a d amt p app r = .ok s') :
     Pres cfg s s' := by
@@ -1078,6 +1078,8 @@ theorem step_pres {cfg : Cfg} {s s' : State} {op : Op} (h : step cfg s op = .ok 
     | fundModule => exact fundModule_pres h
     | fundReserve => exact fundReserve_pres h
     | setPrice a t => simp only [Except.ok.injEq] at h; subst h; exact setPrice_pres
+    | setKill a on => simp only [Except.ok.injEq] at h; subst h; exact ⟨fun c => c, fun _ t => t⟩
+    | setDepreciated p => simp only [Except.ok.injEq] at h; subst h; exact ⟨fun c => c, fun _ t => t⟩
 
 theorem step_core {cfg : Cfg} {s s' : State} {op : Op} (h : step cfg s op = .ok s') (c : CoreS cfg s) : CoreS cfg s' := by
   cases hop : op.isHandover
@@ -1187,5 +1189,20 @@ theorem getLend_setLend {ls : List Lend} {l l' : Lend} (hg : getLend ls l.id = s
   exact this
 
 theorem getLend_delLend (ls : List Lend) (k : Nat) : getLend (delLend ls k) k = none := find_del lid ls k
+
+/-! ## Where the interest a borrower pays goes -/
+
+/-- whole tokens of interest = whole tokens of reserve share + whole tokens of lender share + at most one token of dust -/
+theorem interest_split (interest reserve : Int) (hr : 0 ≤ reserve) (hle : reserve ≤ interest) :
+    ∃ dust, 0 ≤ dust ∧ dust ≤ 1 ∧
+      Dec.truncateInt interest = Dec.truncateInt reserve + Dec.truncateInt (interest - reserve) + dust := by
+  unfold Dec.truncateInt
+  rw [Int.tdiv_eq_ediv_of_nonneg (by omega : 0 ≤ interest), Int.tdiv_eq_ediv_of_nonneg hr,
+    Int.tdiv_eq_ediv_of_nonneg (by omega : 0 ≤ interest - reserve)]
+  refine ⟨interest / Dec.P - reserve / Dec.P - (interest - reserve) / Dec.P, ?_, ?_, by omega⟩ <;> simp only [Dec.P] <;> omega
+
+theorem truncateInt_ofInt (k : Int) : Dec.truncateInt (Dec.ofInt k) = k := by
+  unfold Dec.truncateInt Dec.ofInt
+  exact Int.mul_tdiv_cancel k (by decide)
 
 end Comdex.Lend
